@@ -1,3 +1,4 @@
+import Mqtt5V.Proofs.Trace
 import Mqtt5V.Proofs.PubSend
 import Mqtt5V.Proofs.Sender
 import Mqtt5V.Proofs.Replies
@@ -93,5 +94,25 @@ theorem nothing_after_completion (qos2 : Bool) (is : List Model.PubSend.In) (l1 
 
 
 end PubSendOp
+
+/-! ## the composed client model (`Model/Trace.lean`)
+One labelled transition system for the whole outbound path of the client above the stream (API call → sender → reply map → completion),
+over the events an observer of the real client sees.  The tie: `lib/trace_check.py` replays every H-client transcript of the real
+`mqtt_client` through the compiled model (`mdrv trace`); a transcript the model refuses is a broken correspondence.  The theorems below
+hold for EVERY event list the model accepts, of any length. -/
+section ComposedModel
+open Mqtt5V.Model
+
+/-- **C05 (exactly once) end to end, every accepted history**: no operation has two completions, whatever happened in between
+(reconnects, resends, cancellations, acknowledgements arriving twice) -/
+theorem composed_complete_at_most_once (tr a b c : List Trace.Ev) (d1 d2 : Trace.Ev) (op : Nat)
+    (hacc : Trace.accepts tr = true) (hsplit : tr = a ++ d1 :: b ++ d2 :: c)
+    (h1 : Trace.isDoneEv op d1) (h2 : Trace.isDoneEv op d2) : False :=
+  Mqtt5V.Proofs.Trace.complete_once hacc hsplit h1 h2
+
+example : Trace.accepts [.init 1 .pub1 1, .connUp none, .wr, .pk (.publish 1 1 7 false 3), .wrOk, .rx ⟨.puback, 7, [0], 0, true⟩,
+    .rx ⟨.puback, 7, [0], 0, true⟩, .doneOk 1 [0] 0, .doneOk 1 [0] 0] = false := by decide
+
+end ComposedModel
 
 end Mqtt5V.Props.C05
